@@ -441,7 +441,45 @@ func ruleCVPending(c *RC) *RuleResult {
 						})
 					}
 				}
-				if searched {
+				// the defect has one shape: the check is asked about the view the payload requests and nothing else. Any other
+				// argument (a helper's result, a computed view) is some search of the caller's and is not second-guessed
+				requestedOnly := false
+				isReq := func(e ast.Expr) bool {
+					call, ok := ast.Unparen(e).(*ast.CallExpr)
+					if !ok {
+						return false
+					}
+					sel, ok := ast.Unparen(call.Fun).(*ast.SelectorExpr)
+					return ok && sel.Sel.Name == "NewViewNumber" && len(call.Args) == 0
+				}
+				if isReq(call.Args[0]) {
+					requestedOnly = true
+				} else if id, ok := ast.Unparen(call.Args[0]).(*ast.Ident); ok {
+					obj := info.Uses[id]
+					ndef, reqDef := 0, false
+					ast.Inspect(g.Decl.Body, func(m ast.Node) bool {
+						switch st := m.(type) {
+						case *ast.AssignStmt:
+							for i, lhs := range st.Lhs {
+								if lid, ok := ast.Unparen(lhs).(*ast.Ident); ok && (info.Defs[lid] == obj || info.Uses[lid] == obj) && obj != nil {
+									ndef++
+									if i < len(st.Rhs) && len(st.Rhs) == len(st.Lhs) && isReq(st.Rhs[i]) {
+										reqDef = true
+									}
+								}
+							}
+						case *ast.IncDecStmt:
+							if lid, ok := ast.Unparen(st.X).(*ast.Ident); ok && info.Uses[lid] == obj && obj != nil {
+								ndef++
+							}
+						}
+						return true
+					})
+					requestedOnly = reqDef && ndef == 1
+				}
+				if !requestedOnly && !searched && !inLoop {
+					r.ok(g.Name + ": the view handed to " + cv.Name + " is computed (" + types.ExprString(call.Args[0]) + "), not the requested one taken as it is")
+				} else if searched {
 					r.ok(g.Name + ": the view handed to " + cv.Name + " is searched by a loop over the views first")
 				} else if inLoop {
 					r.ok(g.Name + ": " + cv.Name + " is called for each view of a loop")
